@@ -99,8 +99,11 @@ def check(prop: str, tier: str, seed: int, only: Optional[str] = None) -> int:
             r = seed % len(shards)
             shards = shards[r:] + shards[:r]
         for sh in shards:
-            jobs.append((h, {"module": module, "key": f"{prop}.{h.name}", "tier": tier, "shard": sh, "kind": "main",
-                             "exclude": excl, "timeout": h.budget(tier), "seed": seed}))
+            # a shard that lies entirely inside an excluded (known-finding) region has no main obligation
+            inside = any(getattr(h.regions[k], "shard_inside", lambda s_: False)(sh) for k in excl)
+            if not inside:
+                jobs.append((h, {"module": module, "key": f"{prop}.{h.name}", "tier": tier, "shard": sh, "kind": "main",
+                                 "exclude": excl, "timeout": h.budget(tier), "seed": seed}))
             for k in excl:
                 if _region_possible(h, k, sh):
                     jobs.append((h, {"module": module, "key": f"{prop}.{h.name}", "tier": tier, "shard": sh,
@@ -244,11 +247,15 @@ def check(prop: str, tier: str, seed: int, only: Optional[str] = None) -> int:
                     harness_errors.append(f"{hn}: witness {w} does not hold natively: {nat}")
     missing = sorted({t for h in hs for t in h.targets} - functions) if witnesses else []
 
+    printed = set()
     for k in known:
         key = f"{k['harness']}:{k['region']}"
         if known_seen.get(key):
-            lines.append(f"KNOWN-FINDING: property={prop} {k['what']} (e.g. {k.get('example', '')})")
-        else:
+            ln = f"KNOWN-FINDING: property={prop} {k['what']} (e.g. {k.get('example', '')})"
+            if ln not in printed:
+                lines.append(ln)
+                printed.add(ln)
+        elif key in known_seen:
             lines.append(f"NOTE known finding {key} did not reproduce in this run")
 
     if harness_errors and exit_code == 0:
